@@ -220,6 +220,31 @@ pub fn batch(w: &mut RouterWorld, cfg: &Cfg, ci: usize, kind: u8) {
     w.send(ci, txs);
 }
 
+pub const PAIR_KINDS: u8 = 6;
+
+/// two well-formed request packets in one batch: 0..2 PUBLISH QoS 0/1/2 on topic 0,
+/// 3 PINGREQ, 4 SUBSCRIBE filter 0 (QoS 1), 5 UNSUBSCRIBE filter 0
+pub fn pair(w: &mut RouterWorld, cfg: &Cfg, ci: usize, a: u8, b: u8) {
+    let f0 = cfg.filters.first().cloned().unwrap_or_else(|| "a/b".into());
+    let mut txs = vec![];
+    for k in [a, b] {
+        let tx = match k {
+            0..=2 => make_publish(w, cfg, ci, 0, k, false, false, 0),
+            3 => Tx::PingReq,
+            4 => {
+                let pkid = next_pkid(w, ci);
+                Tx::Subscribe { pkid, filters: vec![(f0.clone(), 1)], sub_id: None }
+            }
+            _ => {
+                let pkid = next_pkid(w, ci);
+                Tx::Unsubscribe { pkid, filters: vec![f0.clone()] }
+            }
+        };
+        txs.push(tx);
+    }
+    w.send(ci, txs);
+}
+
 pub const RAW_KINDS: u8 = 8;
 
 /// raw event for a connection id that no live link of the harness owns
